@@ -30,6 +30,9 @@ import (
 type Constant struct {
 	linkOnce
 
+	// linking is true while Link is running for this constant.
+	linking bool
+
 	Name  string
 	File  string
 	Doc   string
@@ -56,8 +59,17 @@ func compileConstant(file string, src *ast.Constant) (*Constant, error) {
 // Link resolves any references made by the constant.
 func (c *Constant) Link(scope Scope) (err error) {
 	if c.linked() {
+		if c.linking {
+			// Reached again while its own value is being resolved.
+			return compileError{
+				Target: c.Name,
+				Reason: fmt.Errorf("constant %q is defined in terms of itself", c.Name),
+			}
+		}
 		return nil
 	}
+	c.linking = true
+	defer func() { c.linking = false }()
 
 	if c.Type, err = c.Type.Link(scope); err != nil {
 		return compileError{Target: c.Name, Reason: err}
